@@ -273,8 +273,8 @@ Definition Pb_iface (c : gcase) (sd : sdecl) (o : sobs) (getter : bool) : bool :
       io_impl i
   end.
 
-Definition Pb_run (c : gcase) (sd : sdecl) (o : sobs) (r : robs) : bool :=
-  let pkg := gc_pkg c in let fuel := gc_fuel c in let sv := spec_view c in
+Definition Pb_run (c : gcase) (sv : view) (sd : sdecl) (o : sobs) (r : robs) : bool :=
+  let pkg := gc_pkg c in let fuel := gc_fuel c in
   match find_method pkg sv fuel (self_inst sd) (ro_setter r) with
   | None => false
   | Some pm =>
@@ -300,7 +300,7 @@ Definition Pb_run (c : gcase) (sd : sdecl) (o : sobs) (r : robs) : bool :=
       end
   end.
 
-Definition Pb_struct (c : gcase) (o : sobs) : bool :=
+Definition Pb_struct (c : gcase) (sv : view) (o : sobs) : bool :=
   match find_struct (gc_pkg c) "" (so_name o) with
   | None => false
   | Some sd =>
@@ -309,11 +309,11 @@ Definition Pb_struct (c : gcase) (o : sobs) : bool :=
       (* exactly the accessors the directives call for, named by Pascal-casing, typed like the field *)
       set_eqb mrow_eqb (so_own o) (spec_rows fl sd true ++ spec_rows fl sd false) &&
       (* every method of *T's method set is the accessor Go selects among the tables of the closure *)
-      forallb (fun mp => match find_method (gc_pkg c) (spec_view c) (gc_fuel c) (self_inst sd) (fst (fst (fst mp))) with
+      forallb (fun mp => match find_method (gc_pkg c) sv (gc_fuel c) (self_inst sd) (fst (fst (fst mp))) with
                          | Some pm => mrow_eqb (row_of_method (snd pm)) (fst mp) && path_eqb (fst pm) (snd mp)
                          | None => false end) (so_mset o) &&
       Pb_iface c sd o true && Pb_iface c sd o false &&
-      forallb (Pb_run c sd o) (so_runs o)
+      forallb (Pb_run c sv sd o) (so_runs o)
   end.
 
 Definition any_directive_on_exported (c : gcase) : bool := existsb directive_on_exported (structs_of_order c).
@@ -321,15 +321,16 @@ Definition any_directive_on_exported (c : gcase) : bool := existsb directive_on_
 Definition Pb_gs (c : gcase) : bool :=
   if any_directive_on_exported c then N.eqb (gc_status c) 1
   else N.eqb (gc_status c) 0 && Nat.eqb (length (gc_structs c)) (length (gc_order c)) &&
-       forallb (Pb_struct c) (gc_structs c).
+       (let sv := spec_view c in forallb (Pb_struct c sv) (gc_structs c)).
 
 (* the guard of the theorems, for every selected struct; accessor names unique w.r.t. the
    declarative view of the whole run *)
 Definition guard_gs (c : gcase) : bool :=
   nodup_str (gc_order c) &&
   Nat.eqb (length (structs_of_order c)) (length (gc_order c)) &&
-  forallb (fun sd => c03_guard (gc_pkg c) (gc_flags c) (gc_fuel c) sd &&
-                     accessor_names_unique (gc_pkg c) (spec_view c) (gc_fuel c) sd) (structs_of_order c).
+  (let sv := spec_view c in
+   forallb (fun sd => c03_guard (gc_pkg c) (gc_flags c) (gc_fuel c) sd &&
+                      accessor_names_unique (gc_pkg c) sv (gc_fuel c) sd) (structs_of_order c)).
 
 (* verdicts: 0 agree and the property holds; 1 model and implementation differ; 2 inside the guard and the
    property fails on the observation; 3 outside the guard (input class of an open finding) and the literal
